@@ -2,8 +2,10 @@ package main
 
 import (
 	"fmt"
+	"os"
 	"runtime"
 	"sort"
+	"strings"
 	"sync"
 	"sync/atomic"
 
@@ -23,6 +25,9 @@ type caseResult struct {
 }
 
 func runCase(spec *caseSpec) (res *caseResult) {
+	if spec.Overlap != nil {
+		return runOverlapCase(spec)
+	}
 	res = &caseResult{spec: spec}
 	w, err := newWorld(spec)
 	defer func() {
@@ -42,7 +47,7 @@ func runCase(spec *caseSpec) (res *caseResult) {
 		return res
 	}
 	w.execute()
-	res.finds, res.cnt, res.fired, res.inconcl = w.finds, w.cnt, w.fired, w.inconcl
+	res.finds, res.cnt, res.fired, res.inconcl = w.finds, w.cnt, w.fired+w.overlapWaves, w.inconcl
 	res.keepTrace = len(w.finds) > 0 || w.inconcl != "" || spec.Idx < 3
 	return res
 }
@@ -64,7 +69,12 @@ func checkC27(c *vlib.Ctx) {
 	c.Assume("Ground truth is the generator's content map (spoke path -> bytes); the hub is judged by walking its storage " +
 		"directory and reading its sync_received table; ledger transitions come from SQLite triggers installed by the " +
 		"harness on the ledger database file (no arc source change).")
-	c.Assume("The agent runs with MaxConcurrent=1 so that the order of transport calls is a function of the ledger; " +
+	c.Assume("Families G/H cover overlapping transfers: G drives 2-3 Receiver.Receive calls at once with gated bodies " +
+		"(started one by one, each parked mid-stream, released in every order; resumed + fresh; equal base names in " +
+		"different directories, equal paths in different spokes, distinct names, the same file twice); H runs the real " +
+		"Agent with MaxConcurrent 2-4 over files that share a base name, the adapter forcing each wave of PutFile calls " +
+		"to overlap in a fixed order. In H a -> synced is judged against the latest hub observation.")
+	c.Assume("In all other families the agent runs with MaxConcurrent=1 so that the order of transport calls is a function of the ledger; " +
 		"the hub only changes inside transport calls and harness events, which is what makes 'the hub at the moment the " +
 		"row became synced' observable after the fact.")
 	c.Assume("A spoke crash is modelled by cancelling the run's context inside the transport call (every later ledger " +
@@ -88,6 +98,18 @@ func checkC27(c *vlib.Ctx) {
 	}
 
 	cases := buildCases(c.Rand("cases"), c.Quick())
+	if only := os.Getenv("VERIF_C27_FAMILY"); only != "" {
+		// development aid: run the families whose name starts with the given prefix
+		var keep []*caseSpec
+		for _, cs := range cases {
+			if strings.HasPrefix(cs.Family, only) {
+				keep = append(keep, cs)
+			}
+		}
+		cases = keep
+		c.Floor(0)
+		defer c.Floor(0)
+	}
 	results := make([]*caseResult, len(cases))
 	var next atomic.Int64
 	var wg sync.WaitGroup
